@@ -9,6 +9,7 @@ import (
 	"sync/atomic"
 	"time"
 
+	"github.com/netflix/rend/handlers/inmem"
 	"github.com/netflix/rend/handlers/memcached/batched"
 	"github.com/netflix/rend/orcas"
 	"github.com/netflix/rend/verifshim/clusterproxyapp"
@@ -31,6 +32,7 @@ import (
 // goroutine of the program's first init function stays parked (one small goroutine per deployment).
 
 const (
+	appUnixPath  = "/nonexistent-verif-dir/rend.sock" // never created: the listener is in memory
 	appLockSlot  = 1001 // of rend's 1024 lock-set slots
 	appMainPort  = 11211
 	appBatchPort = 11212
@@ -80,7 +82,12 @@ var (
 // AppArgs is the command line a configuration corresponds to.
 func (c Cfg) AppArgs(l1sock, l2sock string) []string {
 	a := []string{"-p", fmt.Sprint(appMainPort), "-bp", fmt.Sprint(appBatchPort), "--l1-sock", l1sock}
+	if c.Unix {
+		a = append(a, "--use-domain-socket", "--sock-path", appUnixPath)
+	}
 	switch c.L1H {
+	case "inmem":
+		a = append(a, "--l1-inmem")
 	case "chunked":
 		a = append(a, "--chunked")
 	case "batched":
@@ -100,7 +107,17 @@ func (c Cfg) AppArgs(l1sock, l2sock string) []string {
 	return a
 }
 
+// InmemSnapshot renders the in-process L1 (memproxy --l1-inmem) for state keys.
+func InmemSnapshot() string {
+	h, _ := inmem.New()
+	return inmem.VerifSnapshot(h)
+}
+
 func (w *World) startApp() {
+	if w.Cfg.L1H == "inmem" {
+		h, _ := inmem.New()
+		inmem.VerifReset(h) // one instance per process, shared by every connection
+	}
 	n := atomic.AddInt64(&appSeq, 1)
 	in := &appInst{stop: make(chan struct{}), lst: map[int]*appListener{}, dialed: map[int][]*fakemc.Conn{},
 		l1sock: fmt.Sprintf("verif-app-l1-%d.sock", n), l2sock: fmt.Sprintf("verif-app-l2-%d.sock", n)}
@@ -120,6 +137,9 @@ func (w *World) startApp() {
 			if network == "tcp" && l.addr == address {
 				return l, nil
 			}
+		}
+		if w.Cfg.Unix && network == "unix" && address == appUnixPath {
+			return in.lst[0], nil
 		}
 		in.Problems = append(in.Problems, "listen on unexpected address "+network+" "+address)
 		return nil, fmt.Errorf("verif: nothing to listen on at %s %s", network, address)
@@ -203,6 +223,19 @@ func (w *World) ExtraLockSlots() []uint32 {
 		for s := uint32(appLockSlot + 1); s <= w.app.lastLockSlot && s < 1024; s++ {
 			out = append(out, s)
 		}
+	}
+	return out
+}
+
+// AppCfgsRare: the rarely used start-up variants (domain socket listener, in-process debug L1).
+func AppCfgsRare() []Cfg {
+	var out []Cfg
+	for _, p := range []string{"binary", "text"} {
+		out = append(out,
+			Cfg{Orca: "l1only", Lock: "none", Proto: p, L1H: "std", App: true, Unix: true},
+			Cfg{Orca: "l1l2b", Lock: "multi", Proto: p, L1H: "std", App: true, Unix: true, Conc: 2},
+			Cfg{Orca: "l1only", Lock: "none", Proto: p, L1H: "inmem", App: true},
+			Cfg{Orca: "l1l2b", Lock: "single", Proto: p, L1H: "inmem", App: true, Conc: 2})
 	}
 	return out
 }
